@@ -8,7 +8,7 @@ THEOREMS = ["Hyp.Keyword." + t for t in (
     "c02_noteq", "c02_notany", "c02_notall", "c02_notall_nil", "c02_no_stale", "c02_no_keyerror",
     "c02_erase_step", "c02_erase_run", "c02_erase_view", "c02_representation_independent",
     "c02_index_entry", "c02_query_entry_partial", "c02_notall_object_is_all", "c02_notall_object_differs")]
-CASES = {"quick": 480, "thorough": 40000}
+CASES = {"quick": 4000, "thorough": 150000}
 BUDGET_S = {"quick": 40, "thorough": 700}
 RULE = ("histories of 5-60 (thorough: up to 400) index/reindex/unindex/reset/optimize/set-threshold calls over "
         "docids 0..15 plus extreme ids and 3-7 keywords (str or int, ranked for the model); a document's next "
@@ -44,9 +44,19 @@ class Doc(object):
     pass
 
 
-def gen_query(rng, used, op=None):
+def gen_query(rng, used, op=None, cur=None):
     op = op or rng.choice(QOPS)
     n = len(STR_POOL)
+    sets = [sorted(v) for v in (cur or {}).values() if v]
+    if sets and op not in ("eq", "noteq") and rng.random() < 0.35:
+        # keywords of one document: 'all' answers are non-empty, 'any' hits several postings
+        ks = rng.choice(sets)
+        ks = rng.sample(ks, rng.randrange(1, len(ks) + 1))
+        if rng.random() < 0.3:
+            ks.append(rng.choice(ks))
+        if rng.random() < 0.2:
+            ks.append(rng.randrange(n))
+        return [op] + ks
 
     def const():
         return rng.choice(used) if used and rng.random() < 0.7 else rng.randrange(n)
@@ -119,11 +129,11 @@ def gen_history(rng, tier, ids, nkw, maxlen):
             cur[d] = set(new)
         if rng.random() < 0.25:
             for _ in range(rng.randrange(1, 4)):
-                cmds.append([rng.choice(["q", "qx"])] + gen_query(rng, used))
+                cmds.append([rng.choice(["q", "qx"])] + gen_query(rng, used, cur=cur))
         if rng.random() < 0.04:
             cmds.append(["tags"])
     for op in QOPS:
-        q = gen_query(rng, used, op)
+        q = gen_query(rng, used, op, cur=cur)
         cmds.append(["q"] + q)
         cmds.append(["qx"] + q)
     cmds.append(["q", "all"])
@@ -197,6 +207,8 @@ class KeywordImpl(object):
 
     def tags(self):
         """posting representations; not part of the public API: skipped (None) when not available"""
+        if getattr(self, "stale", False):
+            return None
         try:
             items = list(self.idx._fwd_index.items())
             Set, TreeSet = self.fam.IF.Set, self.fam.IF.TreeSet
@@ -212,7 +224,22 @@ class KeywordImpl(object):
         except (AttributeError, KeyError):
             return None
 
+    def latch(self):
+        """an empty posting left in the forward map is a bookkeeping (C06) matter; it can also change which
+        container a later insertion re-uses, so from then on the representation probe is not compared"""
+        try:
+            if any(len(p) == 0 for p in self.idx._fwd_index.values()):
+                self.stale = True
+        except AttributeError:
+            self.stale = True
+
     def execute(self, c):
+        r = self.execute1(c)
+        if c[0] in ("index", "reindex", "unindex", "indexstr"):
+            self.latch()
+        return r
+
+    def execute1(self, c):
         try:
             op = c[0]
             if op == "index":
@@ -257,9 +284,28 @@ def impl_run(hyp, case):
 
 
 def same(a, b):
+    # posting representations: the specification leaves them free ("tags-any"); the model's choice must
+    # still be the implementation's (a mismatch is correspondence drift, not a failing input)
     if isinstance(a, str) and a.startswith("tags"):
-        return a.strip() == b.strip()
+        return b == "tags-any" or a.strip() == b.strip()
     return a == b
+
+
+def neighbourhood(rng, case):
+    """a representation-only divergence was found: look nearby for an input on which an answer differs
+    (drop the representation probes, query every keyword and the known ids after every operation)"""
+    cmds = []
+    for c in case["cmds"]:
+        if c[0] == "tags":
+            continue
+        cmds.append(c)
+        if c[0] not in ("q", "qx"):
+            for k in range(len(STR_POOL)):
+                if rng.random() < 0.8:
+                    cmds.append(["q", "eq", k])
+            cmds.append(["q", "notall"])
+            cmds.append(["q", "noteq", rng.randrange(len(STR_POOL))])
+    return dict(case, cmds=cmds)
 
 
 def nontrivial(case, outs):
